@@ -659,9 +659,16 @@ def c09(prop, tier, replay):
     # duration sources that change from fragment to fragment; media data before the moof
     st3, mcs3 = gen_mc("MC_Frag", "MC_Frag_mix", wd, tier, need_actions=("Render",))
     st4, mcs4 = gen_mc("MC_Frag", "MC_Frag_mf", wd, tier, need_actions=("Render",))
-    cases = frag_cases(mcs, "fr") + frag_cases(mcs2, "frtrex") + frag_cases(mcs3, "frmix") + frag_cases(mcs4, "frmf")
+    # track fragments without a run; two track fragments of one track in one moof
+    st5, mcs5 = gen_mc("MC_Frag", "MC_Frag_extra", wd, tier, need_actions=("Render",))
+    cases = frag_cases(mcs, "fr") + frag_cases(mcs2, "frtrex") + frag_cases(mcs3, "frmix") + frag_cases(mcs4, "frmf") + frag_cases(mcs5, "frx")
+    # a media segment that does not start at position 0 of its stream (moof-relative addressing only:
+    # explicit base offsets are absolute positions of the rendered file)
+    shifted = [dict(c, id=c["id"] + "-at", seg_pos=big(rng.choice([1, 8, 1000, 4096]))) for c in cases
+               if c.get("init") and c["info"]["base"] in ("moof", "none")]
+    cases += shifted[:: (4 if tier == "quick" else 1)]
     res = validate_sharded("Trace_Read", cases, wd, "frag", 6 if tier == "quick" else 16, runner="read-run")
-    report_read(prop, tier, res, cases, [sta, st, st2, st3, st4], t0, known, "model_checking",
+    report_read(prop, tier, res, cases, [sta, st, st2, st3, st4, st5], t0, known, "model_checking",
                 "fragmented movies: fragment structures (1-3 fragments, 1-2 tracks, empty runs, late tracks) x 6 base-offset modes x "
                 "3 duration modes (+ 3 modes that change the source from fragment to fragment) x 3 composition-offset modes x 32/64-bit tfdt x "
                 "movie-level defaults x media data after / before the moof x 2 deliveries, rendered by the "
@@ -679,6 +686,8 @@ def layout_cases(mcs, name):
         seen.add(h)
         cases.append({"id": "%s-%d" % (name, len(cases)), "prop": "C12", "file": c["file"], "expect_ok": True,
                       "ops": c["ops"], "base": c["base"]})
+        if c.get("init"):
+            cases[-1]["init"] = c["init"]
     return cases
 
 
@@ -702,7 +711,7 @@ def c12(prop, tier, replay):
         report_read(prop, tier, res, cases, [], t0, known, "model_checking", "replay", 2)
         return
     stats, cases = [], []
-    for b in ("plain", "plaineof", "frag", "fragmf", "fragemsg", "meta"):
+    for b in ("plain", "plaineof", "plainurl", "frag", "fragmf", "fragemsg", "fragsplit", "meta"):
         if not os.path.exists(os.path.join(SPEC, "MC_Layout_%s1.cfg" % b)):
             continue
         st, mcs = gen_mc("MC_Layout", "MC_Layout_%s1" % b, wd, tier, coverage=False)
@@ -711,6 +720,8 @@ def c12(prop, tier, replay):
             raise ToolError("vacuity: layout operation kinds %s never applied in %s" % ({"free", "unk", "swap", "large", "spare"} - kinds, b))
         stats.append(st)
         cases += layout_cases(mcs, "ly1" + b)
+        if not os.path.exists(os.path.join(SPEC, "MC_Layout_%s3.cfg" % b)):
+            continue
         st, mcs = sim_mc("MC_Layout", "MC_Layout_%s3" % b, wd, 250 if tier == "quick" else 6000)
         stats.append(st)
         cases += layout_cases(mcs, "lyN" + b)
@@ -904,6 +915,13 @@ def c11(prop, tier, replay):
             sel += rng.sample(mcs, min(60, len(mcs)))
         for c in sel:
             files.append({"file": c["file"], "kind": "spec-rendered " + b, "ops": c["ops"]})
+    # fragmented, the source of the durations changing from fragment to fragment (a prefix that ends
+    # before a later fragment must not change what earlier fragments say)
+    st, mx = gen_mc("MC_Frag", "MC_Frag_mix", wd, tier, coverage=False)
+    stats.append(st)
+    for dm in ("mixA", "mixB", "mixC"):
+        files += [{"file": c["file"], "kind": "spec-rendered fragmented " + dm} for c in mx
+                  if c["delivery"] == "one" and c["durMode"] == dm and c["base"] == "moof" and not c["mdatFirst"] and c["nfrag"] >= 2][:1 if tier == "quick" else 4]
     st, mcs = gen_mc("MC_Meta", "MC_Meta_q", wd, tier, coverage=False)
     stats.append(st)
     full = [c for c in mcs if c["shape"] in ("mdir", "mdirqt") and c["title"] != "absent" and c["year"] == "text2008" and c["poster"] != "absent"][:2]
@@ -966,6 +984,10 @@ def c10(prop, tier, replay):
     st, em = gen_mc("MC_Layout", "MC_Layout_fragemsg0", wd, tier, coverage=False)
     stats.append(st)
     base += em[:1]
+    # ... whose data references name an external location (a non-empty C string in dref/url)
+    st, ur = gen_mc("MC_Layout", "MC_Layout_plainurl0", wd, tier, coverage=False)
+    stats.append(st)
+    base += ur[:1]
     st, me = gen_mc("MC_Meta", "MC_Meta_q", wd, tier, coverage=False)
     stats.append(st)
     base += [c for c in me if c["shape"] == "mdirqt" and c["title"] != "absent" and c["poster"] != "absent"][:1]
@@ -1037,6 +1059,14 @@ def robust_bases(tier, wd, rng):
     st, fe = gen_mc("MC_Layout", "MC_Layout_fragemsg0", wd, tier, coverage=False)
     stats.append(st)
     bases.append({"file": fe[0]["file"], "fields": fe[0]["fields"], "kind": "spec-rendered fragmented movie with event message boxes"})
+    st, fds = gen_mc("MC_Layout", "MC_Layout_fragdefsplit0", wd, tier, coverage=False)
+    stats.append(st)
+    bases.append({"file": fds[0]["file"], "init": fds[0]["init"], "fields": fds[0]["fields"],
+                  "kind": "spec-rendered media segment (run without per-sample sizes) against its init segment"})
+    st, fsp = gen_mc("MC_Layout", "MC_Layout_fragsplit0", wd, tier, coverage=False)
+    stats.append(st)
+    bases.append({"file": fsp[0]["file"], "init": fsp[0]["init"], "fields": fsp[0]["fields"],
+                  "kind": "spec-rendered media segment starting with a segment type box, against its init segment"})
     st, sp = gen_mc("MC_Frag", "MC_Frag_q", wd, tier, coverage=False)
     stats.append(st)
     s0 = [c for c in sp if c["delivery"] == "split" and c["ntracks"] == 2 and c["nfrag"] == 2 and c["durMode"] == "per" and c["ctsMode"] == "v0"][0]
@@ -1047,6 +1077,8 @@ def robust_bases(tier, wd, rng):
     bases.append({"file": m0["file"], "fields": m0["fields"], "kind": "spec-rendered movie with iTunes metadata"})
     m1 = [c for c in me if c["shape"] == "mdta" and c["title"] != "absent"][0]
     bases.append({"file": m1["file"], "fields": m1["fields"], "kind": "spec-rendered movie, metadata with unknown handler"})
+    m2 = [c for c in me if c["shape"] == "mdir" and c["year"] == "bin0" and c["hdr"] == "small" and c["mmeta"] == "none"][0]
+    bases.append({"file": m2["file"], "fields": m2["fields"], "kind": "spec-rendered movie, metadata with an empty binary year"})
     bases.append({"file": canned("minimal.mp4"), "fields": [], "kind": "canned minimal.mp4"})
     bases.append({"file": canned("minimal_fragment.m4s"), "init": canned("minimal_init.mp4"), "fields": [], "kind": "canned fragment against canned init"})
     bases.append({"file": canned("extended_audio_object_type.mp4"), "fields": [], "kind": "canned extended_audio_object_type.mp4", "region": [0, 64]})
